@@ -13,4 +13,38 @@ def fenceN (info : Option Segment) (lines : List Segment) (b : Bool) : Blocks.No
 /-- a code line segment: the whole source line with its line feed, ForceNewline set -/
 def csg (p e : Nat) : Segment := { start := p, stop := e, padding := 0, forceNewline := true }
 
+/-! ### stage 12: indented code blocks -/
+
+/-- the indentation of the fragment's indented code blocks: exactly four spaces -/
+def ind4 : Bytes := [32, 32, 32, 32]
+
+/-- a line of an indented code block behind its indentation: first byte not white space, no line feed -/
+structure IcLine (l : Bytes) : Prop where
+  first : ∃ c t, l = c :: t ∧ isSpace c = false
+  noNl : ∀ c ∈ l, c ≠ 10
+
+/-- a CodeBlock node below the Document -/
+def codeN (lines : List Segment) (b : Bool) : Blocks.Node :=
+  { kind := .codeBlock, parent := some 0, lines := lines, linesNil := false, blankPrev := b }
+
+/-- the source lines of an indented code block -/
+def icLines (ls : List Bytes) : List Bytes := ls.map (ind4 ++ ·)
+
+/-- the line segments of an indented code block whose first line starts at byte `p`: every line from behind the
+    indentation to behind its line feed, ForceNewline set -/
+def icsegs : Nat → List Bytes → List Segment
+  | _, [] => []
+  | p, l :: rest => csg (p + 4) (p + 4 + l.length + 1) :: icsegs (p + 4 + l.length + 1) rest
+
+/-- the same when the last line has no line feed (it ends the source) -/
+def icsegsE : Nat → List Bytes → List Segment
+  | _, [] => []
+  | p, [l] => [csg (p + 4) (p + 4 + l.length)]
+  | p, l :: l' :: rest => csg (p + 4) (p + 4 + l.length + 1) :: icsegsE (p + 4 + l.length + 1) (l' :: rest)
+
+/-- the segments of `j` blank lines from byte `q` on, as `codeBlockParser.Continue` appends them -/
+def blankSegs : Nat → Nat → List Segment
+  | _, 0 => []
+  | q, j + 1 => sg q (q + 1) :: blankSegs (q + 1) j
+
 end GM.Proof.CMFrag
